@@ -130,3 +130,26 @@ Theorem C07_chk_immediate_model : forall (place : str -> nat) wos ops,
   deliveries_okb (snd (run_imm (cluster_init wos) ops)) (snd (run_single single_init ops)) = true.
 Proof. exact chk_immediate_model. Qed.
 Print Assumptions C07_chk_immediate_model.
+
+(* ---- application handlers (Cluster/Handlers.v, proofs in Cluster/HandlersProofs.v) ---- *)
+From VT Require Import Cluster.Handlers Cluster.HandlersProofs.
+
+(* the model with handlers is a conservative extension: an application that registers no handler makes every
+   history of PubSub.v run exactly as PubSub.run (same successor state, same effects) *)
+Theorem C07_handlers_conservative : forall ops c,
+  xrun [] c (map XBase ops) = let '(c1, es) := run c ops in (c1, map (map HE) es).
+Proof. exact xrun_no_handlers. Qed.
+Print Assumptions C07_handlers_conservative.
+
+(* the disconnect window: for a client that is marked pending (its disconnect handler is running),
+   leave_room / enter_room publish the request on the channel and leave the host's tables unchanged *)
+Theorem C07_leave_room_in_window : forall k sid ns room s,
+  is_pending (h_mgr s) sid ns = true ->
+  ps_leave_room k sid ns room s = (s, [Published (MLeaveRoom sid room ns k)], Ok tt).
+Proof. exact leave_room_in_window. Qed.
+Print Assumptions C07_leave_room_in_window.
+Theorem C07_enter_room_in_window : forall k sid ns room s,
+  is_pending (h_mgr s) sid ns = true ->
+  ps_enter_room k sid ns room s = (s, [Published (MEnterRoom sid room ns k)], Ok tt).
+Proof. exact enter_room_in_window. Qed.
+Print Assumptions C07_enter_room_in_window.
